@@ -1014,6 +1014,20 @@ fn sc_fee_floor_boundaries(t: &mut Tracer) {
     // protocol 0.3 %, swap 0.7 %, burn 0.03 %, extra 0.17 %
     w.create_pool(&o, &["uusdc", "uusdt"], &[6, 6], fees(300, 700, 30, &[170]), CP, Some("ff"), &ok);
     w.provide(&a, "o.ff", &[coin(1_000_000, "uusdc"), coin(1_000_000, "uusdt")], None, None, None, None, None);
+    // fee shares that use all 18 digits of the fixed point (1/3000, 1/7000, 1/900, 1/1300) on outputs of 10^13 units and more
+    {
+        let fine = |n: u128| Fee { share: Decimal::from_ratio(1u128, n) };
+        let pf = PoolFee { protocol_fee: fine(3000), swap_fee: fine(7000), burn_fee: fine(900), extra_fees: vec![fine(1300)] };
+        if w.create_pool(&o, &["uusdc", "uweth"], &[6, 18], pf, CP, Some("fine"), &ok) {
+            w.provide(&a, "o.fine", &sorted(vec![coin(1_000_000_000_000_000, "uusdc"), coin(2_000_000_000_000_000_000_000_000_000, "uweth")]), None, None, None, None, None);
+            for amt in [30_000_000_000_000u128, 77_777_777_777_777, 123_456_789_012_345] {
+                w.swap(&a, "o.fine", &[coin(amt, "uusdc")], "uweth", None, Some(Decimal::percent(50)), None);
+            }
+            w.swap(&a, "o.fine", &[coin(55_555_555_555_555_555_555_555_555, "uweth")], "uusdc", None, Some(Decimal::percent(50)), None);
+            w.route(&a, &[h2("o.fine", "uusdc", "uweth")], &[coin(41_000_000_000_001, "uusdc")], None, None, Some(Decimal::percent(50)));
+            w.provide(&a, "o.fine", &[coin(20_000_000_000_001, "uusdc")], None, None, None, None, Some(Decimal::percent(50)));
+        }
+    }
     let shares: [u128; 4] = [300, 700, 30, 170];
     let mut found = 0;
     let mut dx: u128 = 1000;
